@@ -1,1 +1,161 @@
 //! Verification hook: public wrapper of the stream multiplexer.
+//!
+//! Thin public newtypes around the crate-private `mux::{Mux, Config, StreamQueue, Stream}`:
+//! build a multiplexer with a chosen config and per-capability stream queues, run it over a
+//! caller-supplied transport, open transient streams and use their halves. Every method
+//! delegates to the method of the same name; no behaviour is added.
+use std::{collections::BTreeMap, sync::Arc};
+
+use zksync_concurrency::{ctx, io, limiter};
+
+use crate::{mux, noise::bytes};
+
+/// `mux::MAX_STREAM_COUNT`.
+pub const MAX_STREAM_COUNT: u32 = mux::MAX_STREAM_COUNT;
+
+/// Mirror of `mux::Config` (all fields).
+#[derive(Debug, Clone, Copy)]
+pub struct Config {
+    /// `mux::Config::read_frame_size`
+    pub read_frame_size: u64,
+    /// `mux::Config::read_buffer_size`
+    pub read_buffer_size: u64,
+    /// `mux::Config::read_frame_count`
+    pub read_frame_count: u64,
+    /// `mux::Config::write_frame_size`
+    pub write_frame_size: u64,
+}
+
+/// Coarse class of `mux::RunError`.
+#[derive(Debug, Clone, PartialEq, Eq)]
+pub enum RunError {
+    /// `RunError::Config`
+    Config(String),
+    /// `RunError::Canceled`
+    Canceled,
+    /// `RunError::Closed`
+    Closed,
+    /// `RunError::Protocol`
+    Protocol(String),
+    /// `RunError::IO`
+    IO(String),
+}
+
+impl From<mux::RunError> for RunError {
+    fn from(e: mux::RunError) -> Self {
+        match e {
+            mux::RunError::Config(e) => Self::Config(format!("{e:#}")),
+            mux::RunError::Canceled(_) => Self::Canceled,
+            mux::RunError::Closed => Self::Closed,
+            mux::RunError::Protocol(e) => Self::Protocol(format!("{e:#}")),
+            mux::RunError::IO(e) => Self::IO(format!("{e:#}")),
+        }
+    }
+}
+
+/// `Arc<mux::StreamQueue>` with `limiter::Rate::INF`.
+#[derive(Clone)]
+pub struct Queue(Arc<mux::StreamQueue>);
+
+impl Queue {
+    /// `mux::StreamQueue::new(ctx, max_streams, limiter::Rate::INF)`.
+    pub fn new(ctx: &ctx::Ctx, max_streams: u32) -> Self {
+        Self(mux::StreamQueue::new(ctx, max_streams, limiter::Rate::INF))
+    }
+
+    /// `mux::StreamQueue::open`.
+    pub async fn open(&self, ctx: &ctx::Ctx) -> ctx::OrCanceled<Stream> {
+        let s = self.0.open(ctx).await?;
+        Ok(Stream {
+            read: ReadHalf(s.read),
+            write: WriteHalf(s.write),
+        })
+    }
+}
+
+/// `mux::Mux`.
+pub struct Mux(mux::Mux);
+
+impl Mux {
+    /// Builds `mux::Mux { cfg, accept, connect }` (later entries for the same capability
+    /// replace earlier ones, as `BTreeMap::insert` does).
+    pub fn new(cfg: Config, accept: &[(u64, Queue)], connect: &[(u64, Queue)]) -> Self {
+        let to_map = |qs: &[(u64, Queue)]| -> BTreeMap<mux::CapabilityId, Arc<mux::StreamQueue>> {
+            qs.iter().map(|(c, q)| (*c, q.0.clone())).collect()
+        };
+        Self(mux::Mux {
+            cfg: Arc::new(mux::Config {
+                read_frame_size: cfg.read_frame_size,
+                read_buffer_size: cfg.read_buffer_size,
+                read_frame_count: cfg.read_frame_count,
+                write_frame_size: cfg.write_frame_size,
+            }),
+            accept: to_map(accept),
+            connect: to_map(connect),
+        })
+    }
+
+    /// `mux::Mux::verify`.
+    pub fn verify(&self) -> Result<(), String> {
+        self.0.verify().map_err(|e| format!("{e:#}"))
+    }
+
+    /// `mux::Mux::run` over an arbitrary transport.
+    pub async fn run<S: io::AsyncRead + io::AsyncWrite + Send>(
+        self,
+        ctx: &ctx::Ctx,
+        transport: S,
+    ) -> Result<(), RunError> {
+        self.0.run(ctx, transport).await.map_err(RunError::from)
+    }
+}
+
+/// `mux::Stream`: the two halves can be used and dropped independently.
+pub struct Stream {
+    /// `mux::Stream::read`
+    pub read: ReadHalf,
+    /// `mux::Stream::write`
+    pub write: WriteHalf,
+}
+
+/// `mux::ReadStream`.
+pub struct ReadHalf(mux::ReadStream);
+
+impl ReadHalf {
+    /// `mux::ReadStream::read_exact` into a fresh buffer of capacity `n`; returns the bytes read
+    /// (fewer than `n` = end of stream).
+    pub async fn read_exact(&mut self, ctx: &ctx::Ctx, n: usize) -> anyhow::Result<Vec<u8>> {
+        let mut buf = bytes::Buffer::new(n);
+        self.0.read_exact(ctx, &mut buf).await?;
+        Ok(buf.as_slice().to_vec())
+    }
+}
+
+/// `mux::WriteStream`.
+pub struct WriteHalf(mux::WriteStream);
+
+impl WriteHalf {
+    /// `mux::WriteStream::write_all`.
+    pub async fn write_all(&mut self, ctx: &ctx::Ctx, buf: &[u8]) -> anyhow::Result<()> {
+        self.0.write_all(ctx, buf).await
+    }
+
+    /// `mux::WriteStream::flush`.
+    pub async fn flush(&mut self, ctx: &ctx::Ctx) -> anyhow::Result<()> {
+        self.0.flush(ctx).await
+    }
+
+    /// `(stream_kind bits, stream_id)` of the reusable stream behind this transient stream,
+    /// read off the derived `Debug` output (the fields are private to `mux`; this file must not
+    /// touch `mux/*.rs`). `None` if the `Debug` format changes.
+    pub fn kind_and_id(&self) -> Option<(u16, u16)> {
+        let s = format!("{:?}", self.0);
+        let num_after = |tag: &str| -> Option<u16> {
+            let i = s.find(tag)? + tag.len();
+            let rest = &s[i..];
+            let j = rest.find(|c: char| !c.is_ascii_digit())?;
+            rest[..j].parse().ok()
+        };
+        Some((num_after("StreamKind(")?, num_after("StreamId(")?))
+    }
+}
